@@ -215,6 +215,12 @@ func (f finder) AddressesActivity(addrs []cipher.Addresser) ([]bool, error) {
 	return out, nil
 }
 
+type failingFinder struct{}
+
+func (failingFinder) AddressesActivity(addrs []cipher.Addresser) ([]bool, error) {
+	return nil, fmt.Errorf("transaction finder unavailable")
+}
+
 func idxSet(s string) map[int]bool {
 	m := map[int]bool{}
 	if s == "-" {
@@ -247,6 +253,21 @@ func c17Exec(op string) string {
 			return "err " + cur.view()
 		}
 		return "ok new=" + abAddrs(as) + " " + cur.view()
+	case "scanfail": // the transaction finder returns an error: nothing may change
+		n := PU64(f[1])
+		var err error
+		if cur.locked && cur.typ == "deterministic" {
+			err = wallet.GuardUpdate(cur.w, []byte("pw"), func(w wallet.Wallet) error {
+				_, err := w.ScanAddresses(n, failingFinder{})
+				return err
+			})
+		} else {
+			_, err = cur.w.ScanAddresses(n, failingFinder{})
+		}
+		if err != nil {
+			return "err " + cur.view()
+		}
+		return "ok new=- " + cur.view()
 	case "ggen": // what Service.NewAddresses does for a locked wallet: unlock, derive, lock again
 		opts := []wallet.Option{wallet.OptionGenerateN(PU64(f[1]))}
 		if len(f) > 2 && f[2] == "chg" {
@@ -414,6 +435,13 @@ func c17Gen(r *Rng, tier string, emit func(string)) {
 				emit("unlock")
 				emit("verify")
 				locked = false
+				continue
+			}
+			if r.Chance(15) {
+				emit(fmt.Sprintf("scanfail %d", r.Intn(5)))
+				if r.Chance(50) {
+					emit("reload")
+				}
 				continue
 			}
 			guarded := locked && (typ == "deterministic" || r.Chance(30)) // through GuardUpdate
